@@ -87,6 +87,8 @@ type scenario struct {
 	// Writes2: sizes of Write calls on the second connection, issued by a goroutine of its own
 	// concurrently with the first connection's writer (two sessions sharing one TNC link).
 	Writes2 []int `json:"writes2,omitempty"`
+	// VaryPID: the TNC's data frames of the connection carry PIDs other than 0xF0 as well.
+	VaryPID bool `json:"vary_pid,omitempty"`
 }
 
 func defaults() scenario {
@@ -336,6 +338,7 @@ func (sc scenario) simConfig() simagw.Config {
 	if sc.RegX {
 		cfg.RegisterReplyKind = 'x'
 	}
+	cfg.VaryPID = sc.VaryPID
 	if sc.Mode == "dial" && sc.EarlyData > 0 && sc.Dial == "" {
 		// the called station greets at once: data frames back to back with the TNC's 'C' reply
 		cfg.DialGreeting = payloads(rand.New(rand.NewSource(sc.Seed^0x67726565)), sc.EarlyData, 1, 120)
